@@ -37,3 +37,61 @@ Qed.
 
 Lemma mem_str_app (k : str) (l1 l2 : list str) : mem_str k (l1 ++ l2) = mem_str k l1 || mem_str k l2.
 Proof. induction l1 as [|x l1 IH]; cbn; [reflexivity|]. rewrite IH, orb_assoc. reflexivity. Qed.
+
+(* ---------- prefixes, occurrences, stripping (used by Proofs/C19.v) ---------- *)
+Lemma starts_app_iff (p s : str) : starts p s = true <-> exists r, s = p ++ r.
+Proof.
+  revert s. induction p as [|a p IH]; intros s; cbn [starts].
+  - split; [intros _; exists s; reflexivity|reflexivity].
+  - destruct s as [|b s]; [split; [discriminate|intros [r Hr]; discriminate Hr]|].
+    rewrite andb_true_iff, IH, N.eqb_eq. split.
+    + intros [-> [r ->]]. exists r. reflexivity.
+    + intros [r Hr]. cbn in Hr. injection Hr as -> ->. split; [reflexivity|eauto].
+Qed.
+
+Lemma drop_app (p r : str) : drop (length p) (p ++ r) = r.
+Proof. induction p as [|a p IH]; [destruct r; reflexivity|exact IH]. Qed.
+
+Lemma cut_some (fuel : nat) (sep s acc : str) a b :
+  cut fuel sep s acc = Some (a, b) -> exists pre, s = pre ++ sep ++ b /\ a = rev acc ++ pre.
+Proof.
+  revert s acc. induction fuel as [|f IH]; intros s acc; cbn [cut].
+  - destruct (starts sep s) eqn:E.
+    + intros [= <- <-]. apply starts_app_iff in E. destruct E as [r ->]. exists []. rewrite drop_app, app_nil_r. auto.
+    + destruct s; discriminate.
+  - destruct (starts sep s) eqn:E.
+    + intros [= <- <-]. apply starts_app_iff in E. destruct E as [r ->]. exists []. rewrite drop_app, app_nil_r. auto.
+    + destruct s as [|c s]; [discriminate|]. intros H. apply IH in H. destruct H as (pre & -> & ->).
+      exists (c :: pre). cbn [rev app]. rewrite <- app_assoc. auto.
+Qed.
+
+Lemma contains_occ (sep s : str) : contains sep s = true -> exists pre post, s = pre ++ sep ++ post.
+Proof.
+  unfold contains. destruct (cut (length s) sep s []) as [[a b]|] eqn:E; [|discriminate].
+  intros _. apply cut_some in E. destruct E as (pre & -> & _). eauto.
+Qed.
+
+Lemma contains_in (sep s : str) c : contains sep s = true -> In c sep -> In c s.
+Proof.
+  intros H Hc. apply contains_occ in H. destruct H as (pre & post & ->).
+  apply in_or_app. right. apply in_or_app. left. exact Hc.
+Qed.
+
+Lemma in_lstrip_by (p : N -> bool) (s : str) c : In c s -> p c = false -> In c (lstrip_by p s).
+Proof.
+  induction s as [|x s IH]; [intros []|]. intros Hin Hc. cbn [lstrip_by].
+  destruct (p x) eqn:Px; [|exact Hin].
+  destruct Hin as [->|Hin]; [congruence|auto].
+Qed.
+
+Lemma in_strip_by (p : N -> bool) (s : str) c : In c s -> p c = false -> In c (strip_by p s).
+Proof.
+  intros Hin Hc. unfold strip_by, rstrip_by. apply -> in_rev. apply in_lstrip_by; [|exact Hc].
+  apply -> in_rev. apply in_lstrip_by; assumption.
+Qed.
+
+Lemma split_c_go_nonempty (c : N) (s cur : str) : split_c_go c s cur <> [].
+Proof. revert cur. induction s as [|x s IH]; intros cur; cbn [split_c_go]; [discriminate|]. destruct (N.eqb x c); [discriminate|apply IH]. Qed.
+
+Lemma split_c_nonempty (c : N) (s : str) : split_c c s <> [].
+Proof. apply split_c_go_nonempty. Qed.
